@@ -950,8 +950,13 @@ class Fxp():
             else:
                 self.val = new_val
 
-            self.real = self.get_val()
-            self.imag = 0
+            if index is not None and getattr(self.val, 'dtype', np.dtype(int)).kind == 'c':
+                # (a real value written by index into a complex object: the other elements keep their imaginary parts)
+                self.real = self.astype(complex).real
+                self.imag = self.astype(complex).imag
+            else:
+                self.real = self.get_val()
+                self.imag = 0
 
         else:
             # extract real and imaginary parts
